@@ -844,3 +844,74 @@ pub fn outcomes_sc(p: &Prog) -> (BTreeSet<Vec<u64>>, bool) {
     go(&mut s, &mut vec![0usize; nt], &mut mem, &mut reads);
     (s.out, s.stuck)
 }
+
+
+/// SC outcomes of the interleavings in which all of main's operations run as one uninterrupted
+/// block (placed after any prefix of the other threads' operations). Lower bound for C19: decisions
+/// outside a no-exploration region around main's operations must still be explored.
+pub fn outcomes_sc_main_atomic(p: &Prog) -> BTreeSet<Vec<u64>> {
+    fn step(op: Op, mem: &mut Vec<u64>, reads: &mut Vec<u64>) {
+        match op {
+            Op::Load { loc, .. } | Op::Await { loc, .. } => reads.push(mem[loc as usize]),
+            Op::Store { loc, val, .. } => mem[loc as usize] = val,
+            Op::Swap { loc, val, .. } => {
+                reads.push(mem[loc as usize]);
+                mem[loc as usize] = val;
+            }
+            Op::Cas { loc, exp, new, .. } => {
+                let v = mem[loc as usize];
+                reads.push(v);
+                if v == exp {
+                    mem[loc as usize] = new;
+                }
+            }
+            Op::FetchAdd { loc, add, .. } => {
+                let v = mem[loc as usize];
+                reads.push(v);
+                mem[loc as usize] = v.wrapping_add(add);
+            }
+            _ => {}
+        }
+    }
+    fn go(p: &Prog, pcs: &mut Vec<usize>, main_done: bool, mem: &mut Vec<u64>, reads: &mut Vec<Vec<u64>>, out: &mut BTreeSet<Vec<u64>>) {
+        let mut unfinished = !main_done;
+        if !main_done {
+            // run main's whole block now
+            let saved = mem.clone();
+            let rl = reads[0].len();
+            for op in &p.threads[0] {
+                step(*op, mem, &mut reads[0]);
+            }
+            go(p, pcs, true, mem, reads, out);
+            reads[0].truncate(rl);
+            *mem = saved;
+        }
+        for t in 1..p.threads.len() {
+            if pcs[t] < p.threads[t].len() {
+                unfinished = true;
+                let saved = mem.clone();
+                let rl = reads[t].len();
+                step(p.threads[t][pcs[t]], mem, &mut reads[t]);
+                pcs[t] += 1;
+                go(p, pcs, main_done, mem, reads, out);
+                pcs[t] -= 1;
+                reads[t].truncate(rl);
+                *mem = saved;
+            }
+        }
+        if !unfinished {
+            let mut o: Vec<u64> = reads.iter().flatten().copied().collect();
+            o.extend(mem.iter());
+            out.insert(o);
+        }
+    }
+    let nt = p.threads.len();
+    let mut mem = vec![0u64; p.nlocs];
+    let mut reads: Vec<Vec<u64>> = vec![Vec::new(); nt];
+    for op in &p.pre {
+        step(*op, &mut mem, &mut reads[0]);
+    }
+    let mut out = BTreeSet::new();
+    go(p, &mut vec![0usize; nt], false, &mut mem, &mut reads, &mut out);
+    out
+}
